@@ -34,26 +34,26 @@ type loopInfo struct {
 }
 
 type frame struct {
-	vc       *VC
-	fn       *ssa.Function
-	contract *Contract
-	depth    int
-	args     []Val
-	entry    *State // function-entry state of the function under verification (for old())
-	callerTE *TEnv
-	loops    []*loopInfo
-	loopOf   map[*ssa.BasicBlock]*loopInfo
-	nameEnv  map[string]Val // params by contract names (for invariants)
-	defers   []*ssa.Defer
-	catch    *catchCtx
-	walkCount int // ordinal of the next collections Walk call (source order of execution)
-	freeVars []Val
+	vc          *VC
+	fn          *ssa.Function
+	contract    *Contract
+	depth       int
+	args        []Val
+	entry       *State // function-entry state of the function under verification (for old())
+	callerTE    *TEnv
+	loops       []*loopInfo
+	loopOf      map[*ssa.BasicBlock]*loopInfo
+	nameEnv     map[string]Val // params by contract names (for invariants)
+	defers      []*ssa.Defer
+	catch       *catchCtx
+	walkCount   int // ordinal of the next collections Walk call (source order of execution)
+	freeVars    []Val
 	curCallArgs []ssa.Value
-	curEnv   map[ssa.Value]Val
-	errCalls []errCall // C03 schema: fallible calls made by this frame
-	exemptC03 bool     // inside a call tree whose error is deliberately swallowed
-	order    []nkey
-	succs    map[nkey][]nkey
+	curEnv      map[ssa.Value]Val
+	errCalls    []errCall // C03 schema: fallible calls made by this frame
+	exemptC03   bool      // inside a call tree whose error is deliberately swallowed
+	order       []nkey
+	succs       map[nkey][]nkey
 }
 
 type errCall struct {
